@@ -255,3 +255,47 @@ Proof.
   intros Hu Ht Hp Hc. destruct (pipeline_end_to_end units t cs ctx0 pre Hu Ht Hp Hc) as (invs & _ & _ & _ & Hctx).
   rewrite Hctx. apply alone_all_ctx. rewrite Forall_map. exact Hp.
 Qed.
+
+(* ---- last writer wins, for streams: the SPS found under an id after the whole stream is the last accepted SPS unit with
+   that id ---- *)
+Lemma ctx_after_unit_keeps c v i x :
+  sps_by_id c i = Some x ->
+  (forall y, sps_from_bits (nal_bitsrc v) = OK y -> seq_parameter_set_id y <> i) ->
+  sps_by_id (ctx_after_unit c v) i = Some x.
+Proof.
+  intros Hc Hv. unfold ctx_after_unit. destruct v as [|b r]; [exact Hc|].
+  destruct (nal_header_new b) as [hdr|]; [|exact Hc].
+  destruct (nal_unit_type_id hdr =? 7).
+  { cbn [ctx_step]. destruct (sps_from_bits (nal_bitsrc (b :: r))) as [y| | |] eqn:E; try exact Hc.
+    rewrite sps_lookup_other; [exact Hc|]. intros Heq. apply (Hv y eq_refl). symmetry. exact Heq. }
+  destruct (nal_unit_type_id hdr =? 8); [|exact Hc].
+  cbn [ctx_step]. destruct (pps_from_bits c (nal_bitsrc (b :: r))); try exact Hc.
+Qed.
+
+Lemma fold_keeps post : forall c i x,
+  sps_by_id c i = Some x ->
+  Forall (fun v => forall y, sps_from_bits (nal_bitsrc v) = OK y -> seq_parameter_set_id y <> i) post ->
+  sps_by_id (fold_left ctx_after_unit post c) i = Some x.
+Proof.
+  induction post as [|v r IH]; intros c i x Hc H; [exact Hc|]. inversion H as [|? ? Hv Hr]; subst.
+  cbn [fold_left]. apply IH; [apply ctx_after_unit_keeps; assumption|exact Hr].
+Qed.
+
+Theorem stream_sps_last_writer_wins before n b r after x t cs ctx0 pre :
+  let u := b :: r in
+  let units := before ++ (n, u) :: after in
+  Forall (fun v => unit_ok (snd v)) units -> (t = 0%nat \/ 3 <= t)%nat ->
+  Forall (fun v => exists p, unescape (skipn 1 (snd v)) = Some p) units ->
+  nal_header_new b = Some b -> nal_unit_type_id b = 7 -> sps_from_bits (nal_bitsrc u) = OK x ->
+  Forall (fun v => forall y, sps_from_bits (nal_bitsrc (snd v)) = OK y -> seq_parameter_set_id y <> seq_parameter_set_id x) after ->
+  concat cs = annexb_encode units t ->
+  sps_by_id (ps_ctx (fst (pipeline_run ctx0 [] pre (map APush cs ++ [AReset])))) (seq_parameter_set_id x) = Some x.
+Proof.
+  intros u units Hu Ht Hp Hh Hty Hx Hafter Hc.
+  rewrite (stream_context units t cs ctx0 pre Hu Ht Hp Hc). subst units.
+  rewrite map_app, fold_left_app. cbn [map snd fold_left].
+  apply fold_keeps.
+  - set (C := fold_left ctx_after_unit (map snd before) ctx0). subst u. unfold ctx_after_unit. rewrite Hh, Hty.
+    change (7 =? 7) with true. cbv iota. cbn [ctx_step]. rewrite Hx. apply sps_lookup_after_put.
+  - rewrite Forall_map. exact Hafter.
+Qed.
